@@ -10,6 +10,8 @@ pub mod c02;
 pub mod c03;
 pub mod c04;
 pub mod c05;
+pub mod c07;
+pub mod procgen;
 pub mod c08;
 pub mod c09;
 pub mod c11;
@@ -133,6 +135,7 @@ pub fn run_batch(u: &mut Universe, b: &Batch, st: &mut Stats) {
         "C03" => c03::run(u, b, st),
         "C04" => c04::run(u, b, st),
         "C05" => c05::run(u, b, st),
+        "C07" => c07::run(u, b, st),
         "C08" => c08::run(u, b, st),
         "C09" => c09::run(u, b, st),
         "C11" => c11::run(u, b, st),
@@ -189,6 +192,7 @@ pub fn run_check(id: &str, tier: &str, seed: u64, jobs: usize) -> i32 {
             let res = crate::coord::run_batches(c16::plan(tier, seed), jobs);
             c16::finalise(tier, seed, res)
         }
+        "C07" => c07::check(tier, seed, jobs),
         "C08" => {
             let res = crate::coord::run_batches(c08::plan(tier, seed), jobs);
             c08::finalise(tier, seed, res)
